@@ -17,7 +17,7 @@ RULE = (
     "Non-trivial = >= 2 blocks, or a block within +-2 of the limit, or an oversize entry; distinct by case hash."
 )
 ASSUMPTIONS = ["nothing is demanded about WHICH error is raised when a block cannot be framed in one length byte"]
-REQUIRED_CLASSES = ["blocks>=2", "block.size=117", "block.size=116", "entry.would-make-118", "oversize.first", "oversize.middle", "oversize.last", "delkey", "delkey.with-bytes-content", "delval", "extra-blocks", "extra-as=generator", "extra-as=iterator",
+REQUIRED_CLASSES = ["blocks>=2", "block.size=117", "block.size=116", "entry.would-make-118", "oversize.first", "oversize.middle", "oversize.last", "delkey", "delkey.with-bytes-content", "content-type=bytearray", "content-type=memoryview", "delval", "extra-blocks", "extra-as=generator", "extra-as=iterator",
                     "unframeable"]
 
 LIMIT = 117
@@ -52,6 +52,23 @@ def check(case, rec):
         blocks = B3.conf_dict_to_tlv(cfg)
     except Exception as e:
         raise Violation("conf_dict_to_tlv raised %s: %s" % (type(e).__name__, e))
+    # the same dictionary with its contents held in other buffer types (bytearray, memoryview): either the same blocks or a refusal
+    # (TypeError / ValueError) - never a silently DIFFERENT encoding
+    sets = [k for k, c in cfg.items() if k[1] is not None and c is not None]
+    if sets:
+        kind = (len(sets) + len(entries)) % 2
+        alt = {k: ((bytearray(c) if kind else memoryview(bytes(c))) if (k in sets and (k[0] + k[1]) % 2 == 0) else c) for k, c in cfg.items()}
+        if any(alt[k] is not cfg[k] for k in sets):
+            rec.cls("content-type=" + ("bytearray" if kind else "memoryview"))
+            try:
+                blocks_alt = B3.conf_dict_to_tlv(alt)
+            except (TypeError, ValueError):
+                blocks_alt = None
+            except Exception as e:
+                raise Violation("conf_dict_to_tlv with %s contents raised %s: %s" % ("bytearray" if kind else "memoryview", type(e).__name__, e))
+            if blocks_alt is not None and [bytes(x) for x in blocks_alt] != [bytes(x) for x in blocks]:
+                raise Violation("conf_dict_to_tlv encodes %s contents differently from equal bytes contents: %s vs %s" % (
+                    "bytearray" if kind else "memoryview", [bytes(x).hex() for x in blocks_alt][:3], [bytes(x).hex() for x in blocks][:3]))
     sizes = [len(b) for b in blocks]
     nt = bool(oversize)
     if len(blocks) >= 2:
